@@ -179,7 +179,7 @@ PROPS = {
   "fontWeight": (_enum("normal", "bold"), True, "normal"),
   "fontStyle": (_enum("normal", "italic", "oblique"), True, "normal"),
   "textDecoration": (parse_text_decoration, True, (False, False, False)),
-  "textAlign": (_enum("left", "center", "right", "start", "end", "justify", left="start", right="end"), True, "start"),
+  "textAlign": (_enum("left", "center", "right", "start", "end", left="start", right="end"), True, "start"),
   "display": (_enum("auto", "none"), False, "auto"),
   "visibility": (_enum("visible", "hidden"), True, "visible"),
 }
